@@ -147,6 +147,7 @@ class LinkResult:
         self.bits_received = None
         self.fired_history = 0
         self.over_rows = []
+        self.cohabit_built = False
 
 
 def case_messages(case: dict) -> torch.Tensor:
@@ -179,6 +180,20 @@ def run_link(case: dict) -> LinkResult:
         # hermetic: private deep copies of the (never called) per-process prototypes
         dec = C.private_decoder(case["code"], case["decoder"], case.get("dec_opts"))
         enc = dec.encoder if hasattr(dec, "encoder") else C.private_encoder(case["code"])
+    if case.get("cohabit"):
+        # another decoder is built on the very same encoder object (two receivers sharing one code description) and used once;
+        # constructing or using it must not change the encoder, nor the decoder under test
+        import kaira.models.fec.decoders as D
+
+        try:
+            with torch.no_grad(), contextlib.redirect_stdout(io.StringIO()):
+                other = {"bp": lambda: D.BeliefPropagationDecoder(enc, bp_iters=3), "minsum": lambda: D.MinSumLDPCDecoder(enc, bp_iters=3),
+                         "ml": lambda: D.BruteForceMLDecoder(enc), "syndrome": lambda: D.SyndromeLookupDecoder(enc)}[case["cohabit"]]()
+                other(torch.ones(1, enc.code_length) if case["cohabit"] in ("bp", "minsum") else torch.zeros(1, enc.code_length))
+            res.fired_history += 1
+            res.cohabit_built = True
+        except Exception:
+            res.cohabit_built = False  # that decoder does not exist for this code: nothing is asked
     mod, demod = C.build_modem(case["mod"], case.get("via_registry", False))
     mod.eval()
     demod.eval()
@@ -229,7 +244,9 @@ def run_link(case: dict) -> LinkResult:
     try:
         with torch.no_grad(), contextlib.redirect_stdout(io.StringIO()):
             if case.get("soft"):
-                res.out = model(msg, noise_var=case["noise_var"])
+                nv = case["noise_var"]
+                form = case.get("nv_form", "float")
+                res.out = model(msg, noise_var=int(nv) if form == "int" else (torch.tensor(int(nv)) if form == "int_tensor" else (torch.tensor(nv) if form == "tensor" else nv)))
             else:
                 res.out = model(msg)
     except HarnessError:
